@@ -864,6 +864,15 @@ theorem C01_fact_drop_sites :
         (t!"transport_stdio.go", t!"handleResponse", t!"respChan"),
         (t!"transport_stdio.go", t!"handleResponse", t!"respChan") ] := by decide
 
+/-- **An initialize answer is computed from its own request's arguments**: the protocolVersion of the initialize result is the
+    parameter of `buildInitializeResponse` (the version negotiated for this very request), and the only fields of the lifecycle
+    manager — shared by every request on every session — written while an initialize is handled are the per-session
+    `sessionStates[id]` entry and the capabilities (the same value whoever computes it). A per-request value parked in a
+    manager field on its way into the answer changes one of the two. -/
+theorem C01_fact_initialize_own_arguments :
+    Mcp.Gen.pdInitializeVersionFromParam = true ∧
+    Mcp.Gen.pdInitializeWrites = [t!"saveSessionState: m.sessionStates[session.GetID()]", t!"updateCapabilities: m.capabilities"] := by decide
+
 /-! ## non-vacuity -/
 
 -- three calls answered in reverse order, one duplicate wake-up attempt refused, one timeout: every call has its own answer
